@@ -54,7 +54,7 @@ PROPERTIES = {
                 "holds a package unpacked without mode bits, emptied after a kept executor wrote into it, holds a directory / "
                 "symlink to a directory named like a package file, "
                 "shared with a kept executor of another backend}) the write phase is run once fault-free counting its "
-                "file-system calls (open/write/close/chmod), then once per call index with that call raising OSError, followed "
+                "file-system calls (open/write/close/chmod under the output directory, and the read-open of every template file), then once per call index with that call raising OSError, followed "
                 "by a fault-free retry with the same executor into the same directory; whenever translation returns, the package must be "
                 "complete (all named files present, non-empty, byte-identical to the fault-free rendering, entry script 0755, "
                 "no template directive left). Non-trivial = a case in which at least one fault fired; distinct = "
@@ -63,7 +63,7 @@ PROPERTIES = {
         "assumptions": [
             "only the package-completeness clause of C02 is decided here; C++ well-formedness has no schedule or fault in it "
             "and is not claimed",
-            "the injected faults are OSError(ENOSPC|EIO|EACCES) at open/write/close/chmod under the output directory",
+            "the injected faults are OSError(ENOSPC|EIO|EACCES) at open/write/close/chmod under the output directory and at the open-for-read of each template file",
         ],
     },
 }
